@@ -111,7 +111,8 @@ class BuiltinBroachingCodeGenerator(BroachingCodeGenerator):
     def _gen_constant_element(self, state: GenState, element: ConstantElement) -> AST:
         expr = get_literal_expr(element.value)
         if expr is not None:
-            return ast.parse(expr)
+            # A module consisting of a string literal is unparsed as a docstring (with raw newlines that get indented)
+            return ast.parse(expr, mode="eval").body
 
         name = state.register_next_id("constant", element.value)
         return ast.Name(id=name, ctx=ast.Load())
@@ -135,7 +136,7 @@ class BuiltinBroachingCodeGenerator(BroachingCodeGenerator):
         if not element.args:
             literal = get_literal_from_factory(element.func)
             if literal is not None:
-                return ast.parse(literal)
+                return ast.parse(literal, mode="eval").body
 
         if getattr(element.func, "__name__", None) is not None:
             name = state.register_mangled(element.func.__name__, element.func)
